@@ -34,8 +34,17 @@ def gen(rng, n):
             good.append({'name': name, 'full': full, 'date': date})
         nodes_bad, kinds = [], []
         for k in range(rng.randint(1, 4)):
-            mk = rng.choice(scen.MALFORMED + ['dotdot_trashinfo', 'undated_same_path', 'baddate_same_path', 'tz_date', 'tz_date', 'suffix_twin', 'suffix_twin'])
+            mk = rng.choice(scen.MALFORMED + ['dotdot_trashinfo', 'undated_same_path', 'baddate_same_path', 'tz_date', 'tz_date', 'suffix_twin', 'suffix_twin',
+                                              'link_info', 'link_info', 'link_other'])
             kinds.append(mk)
+            if mk in ('link_info', 'link_other'):
+                # things in info/ that are links: to nowhere, to themselves, to a directory - under a .trashinfo name (with a payload) or not
+                tgt = rng.choice(['no/such/info', 'loop%d.trashinfo' % k, '/canary/dir'])
+                nm = ('loop%d' % k if tgt.startswith('loop') else 'lnk%d' % k) + ('.trashinfo' if mk == 'link_info' else '.txt')
+                nodes_bad.append(['l', td + '/info/' + nm, tgt])
+                if mk == 'link_info':
+                    nodes_bad.append(['f', td + '/files/' + nm[:-10], 'p'])
+                continue
             if mk in ('undated_same_path', 'baddate_same_path'):
                 # shares its Path with a well-formed entry: sort keys tie on the path
                 g = rng.choice(good)
